@@ -118,12 +118,13 @@ func forgetFragment() fragmentationContext {
 }
 
 func (c *Conversation) receiveFragment(beforeCtx fragmentationContext, data ValidMessage) (fragmentationContext, error) {
-	versionBefore, theirTagBefore := c.version, c.theirInstanceTag
+	versionBefore, keyBefore, theirTagBefore := c.version, c.ourCurrentKey, c.theirInstanceTag
 	// a fragment that is rejected or discarded neither commits the conversation to its protocol
 	// version nor binds it to the instance it names
 	unbind := func() {
 		if versionBefore == nil {
 			c.version = nil
+			c.ourCurrentKey = keyBefore
 		}
 		c.theirInstanceTag = theirTagBefore
 	}
@@ -131,6 +132,7 @@ func (c *Conversation) receiveFragment(beforeCtx fragmentationContext, data Vali
 	resultData, ix, l, ok2 := parseFragment(fragBody)
 
 	if ignore {
+		unbind()
 		c.messageEvent(MessageEventReceivedMessageForOtherInstance)
 		return beforeCtx, nil
 	}
